@@ -25,7 +25,7 @@ ASSUMPTIONS = [
     "remove(keep_children=True): position of the un-nested children is free, old siblings keep their order; sort: any order among equal keys",
     "meta None and {} are identified",
 ]
-EXHAUSTIVE_NOTE = {"quick": "forests <= 5 nodes (unique labels) + clone labelings <= 4 nodes, all single steps", "thorough": "forests <= 7 nodes (unique labels) + clone labelings <= 5 nodes, all single steps"}
+EXHAUSTIVE_NOTE = {"quick": "forests <= 5 nodes (unique labels) + typed forests <= 4 + clone labelings <= 4 nodes, all single steps", "thorough": "forests <= 7 nodes (unique labels) + typed forests <= 5 + clone labelings <= 5 nodes, all single steps"}
 
 COUNTED = {"effect", "raised", "unrefused", "wrong-exception"}
 
@@ -126,6 +126,27 @@ def enum_cases(tier):
     for spec in enumer.forests_upto(nmax):
         for op in single_ops(spec, with_copies=enumer.spec_size(spec) <= (4 if tier == "quick" else 5)):
             yield {"spec": spec, "spec2": SPEC2, "ops": [op]}
+    # typed trees: kinds alternate over the pre-order (move is refused there and must stay refused)
+    tmax = 4 if tier == "quick" else 5
+    for spec in enumer.forests_upto(tmax, 1):
+        kinds = ["x", "y", "child"]
+        counter = [0]
+
+        def with_kinds(nodes):
+            out = []
+            for n in nodes:
+                k = kinds[counter[0] % 3]
+                counter[0] += 1
+                out.append([n[0], with_kinds(n[1]), {"kind": k}])
+            return out
+
+        tspec = with_kinds(spec)
+        for op in single_ops(spec, with_copies=enumer.spec_size(spec) <= 3):
+            if op[0] in ("add", "append_child", "prepend_child") and enumer.spec_size(spec) <= 3:
+                op2 = list(op)
+                op2[-1] = {"kind": "y"}
+                yield {"spec": tspec, "spec2": [["s1", [["s2", [], {"kind": "x"}]]], ["s3", [], {"kind": "y"}]], "typed": True, "ops": [op2]}
+            yield {"spec": tspec, "spec2": [["s1", [["s2", [], {"kind": "x"}]]], ["s3", [], {"kind": "y"}]], "typed": True, "ops": [op]}
     # clone labelings
     mmax = 4 if tier == "quick" else 5
     for n in range(2, mmax + 1):
